@@ -105,8 +105,7 @@ theorem setStatic_csum (w : World) (f : Nat) (r : Rec) (R : Nat) : (setStatic w 
 theorem setFailed_csum (w : World) (f : Nat) (r : Rec) (R : Nat) : (setFailed w f r R).csum = r.csum :=
   updateStamp_csum w f r R
 
-theorem setOverride_csum (w : World) (f : Nat) (r : Rec) (R : Nat) : (setOverride w f r R).csum = r.csum :=
-  updateStamp_csum w f r R
+theorem setOverride_csum (w : World) (f : Nat) (r : Rec) (R : Nat) : (setOverride w f r R).csum = none := rfl
 
 /-- Two runs agree and leave the invariant intact. -/
 def Agree (nc : Bool) (N : Nat) (r1 r2 : Status × World) : Prop := r1 = r2 ∧ WInv nc N r1.2
@@ -176,10 +175,11 @@ theorem conds_agree (N : Nat) (E1 E2 : Engine) (t : Nat) (cx' : Ctx) (hE : Agree
 
 theorem rsFinish_winv {N : Nat} (cx : Ctx) (t : Nat) (sc : Script) (w : World) (hsc : ScriptBelow nc N sc)
     (hw : WInv nc N w) : WInv nc N (rsFinish cx t sc w).2.2 := by
-  unfold rsFinish
+  rw [rsFinish_world]
   split
   · exact hw
-  · dsimp only
+  · unfold rsStampW
+    dsimp only
     split
     · exact hw
     · rename_i hst
@@ -312,7 +312,7 @@ theorem startSelf_agree (N : Nat) (E1 E2 : Engine) (d : Defects) (cx : Ctx) (t :
     · dsimp only
       have hc : nc = true → (setOverride (ev w (.warnOverride t)) t sf0 cx.runid).csum = none := by
         intro hn
-        rw [setOverride_csum]; exact hsf0 hn
+        exact setOverride_csum _ _ _ _
       exact ⟨(hw.ev _).setRec t _ hc, hc⟩
     · exact ⟨hw, hsf0⟩
   generalize ssGuard cx t sf0 w = g at hg
